@@ -228,6 +228,7 @@ func checks() map[string]*Check {
 			{Scen: "w1", Params: "crash=1,torn=1", Quick: 24, Thorough: 1200},
 			{Scen: "w2.acklose", Quick: 8, Thorough: 300},
 			{Scen: "w2.votes", Quick: 8, Thorough: 300},
+			{Scen: "w2.installcrash", Params: "snapshots=1", Quick: 32, Thorough: 800},
 			{Scen: "puppet.rv", Params: "cases=20", Quick: 4, Thorough: 100},
 			{Scen: "puppet.is", Params: "cases=20", Quick: 4, Thorough: 100},
 			{Scen: "store.log", Params: "ops=12", Quick: 8, Thorough: 100},
@@ -246,6 +247,8 @@ func checks() map[string]*Check {
 			{Scen: "w1", Params: "snapshots=1,crash=1,voters=3,pad=70000", Quick: 16, Thorough: 400},
 			{Scen: "w2.takeover", Quick: 16, Thorough: 400},
 			{Scen: "w2.figure8", Quick: 8, Thorough: 200},
+			{Scen: "w2.installcrash", Params: "snapshots=1", Quick: 16, Thorough: 400},
+			{Scen: "w2.members", Quick: 16, Thorough: 400},
 			{Scen: "codec.e2e", Params: "size=4718592", Quick: 1, Thorough: 2},
 			{Scen: "puppet.is", Params: "cases=30", Quick: 16, Thorough: 400},
 		},
@@ -260,6 +263,7 @@ func checks() map[string]*Check {
 			{Scen: "w2.members", Params: "voters=4,snapshots=1", Quick: 16, Thorough: 400},
 			{Scen: "w2.memberlag", Quick: 12, Thorough: 200},
 			{Scen: "w2.removeadd", Quick: 24, Thorough: 600},
+			{Scen: "w2.promotesplit", Quick: 24, Thorough: 600},
 			{Scen: "w2.nvquorum", Quick: 12, Thorough: 300},
 			{Scen: "w2.deposedread", Params: "opcap=2000", Quick: 8, Thorough: 200},
 		},
